@@ -262,6 +262,60 @@ def r05i(F):
 	out += P1_who_may_call(F, '05.i', [FC + 'get_last_revoke_and_ack'], [FC + 'monitor_updating_restored', FC + 'channel_reestablish', FC + 'signer_maybe_unblocked'], floor=3)
 	return out
 
+def r05k(F):
+	"""a holder commitment is accepted (and the previous one later revoked) only when it is fully signed"""
+	out = []
+	fn = CC + 'validate_commitment_signed'
+	fu = F.func(fn)
+	oks = set(ok_return_blocks(fu))
+	ex = Expr(fu)
+	ver = sites_call(fu, ['verify_ecdsa'])
+	commit_v, htlc_v = [], []
+	for b in ver:
+		ks = ' '.join(leaf_key(ex.of_operand(a)) for a in fu.blocks[b]['t'][2]['args'])
+		if 'counterparty_funding_pubkey' in ks:
+			commit_v.append(b)
+		elif 'countersignatory_htlc_key' in ks:
+			htlc_v.append(b)
+	if len(commit_v) != 1 or len(htlc_v) != 1:
+		return [Result('05.k', False, 'anchor:verify_ecdsa', 'validate_commitment_signed: expected one commitment-signature and one HTLC-signature verification, found %d/%d' % (len(commit_v), len(htlc_v)), len(ver), where=F.where(fn))]
+	ds = call_decisions(fu, commit_v, 'result')
+	out += P4_guarded(F, '05.k', fu, oks, ds, True, 'commitment signature valid', key='commitment-sig')
+	out += P4_fail_blocks(F, '05.k', fu, oks, ds, True, 'commitment signature valid', key='commitment-sig-fail')
+	# exactly one HTLC signature per non-dust HTLC: the loop zips the two lists and would silently stop at the shorter one
+	gs = guards_in(F, fn, False)
+	cnt = [g for g in gs if len(g.nf[0]) == 2 and any('htlc_signatures' in v and 'len(' in v for v in g.nf[0]) and any('nondust_htlcs' in v and 'len(' in v for v in g.nf[0])]
+	if len(cnt) != 1:
+		out.append(Result('05.k', False, 'guard:htlc-sig-count', 'validate_commitment_signed no longer compares the number of HTLC signatures with the number of non-dust HTLCs (comparisons: %s)' % [g.text() for g in gs][:8], len(gs), where=F.where(fn)))
+	else:
+		g = cnt[0]
+		ok = g.nf[1] in ('Ne', 'Eq') and g.nf[2] == 0 and sorted(g.nf[0].values()) == [-1, 1]
+		out.append(Result('05.k', ok, ('ok:' if ok else 'shape:') + 'htlc-sig-count', 'HTLC signature count test is `%s` (must be an exact equality: the verification loop zips signatures with HTLCs, so a shorter list would leave HTLC transactions unsigned)' % g.text(), 1, where=F.where(fn, g.line)))
+		if ok:
+			out += P4_guarded(F, '05.k', fu, oks, g.decisions, g.nf[1] == 'Eq', 'signature count == non-dust HTLC count', key='htlc-sig-count-guard')
+	# every zipped pair is verified before the next one / before leaving the loop normally
+	heads = loop_heads(fu)
+	hb = htlc_v[0]
+	loop_hs = [h for h in heads if hb in fu.reach([h]) and h in fu.reach([hb])]
+	if not loop_hs:
+		out.append(Result('05.k', False, 'shape:htlc-sig-loop', 'the HTLC signature verification is not inside a loop over the HTLCs', 1, where=F.where(fn, fu.line_of(hb))))
+	else:
+		h = loop_hs[0]
+		dn = call_decisions(fu, [h], 'option')
+		some = [e[1] for d in dn for e in d.true_edges]
+		p = fu.path(some, [h], removed_blocks={hb})
+		out.append(Result('05.k', p is None and bool(some), ('ok:' if p is None and some else 'bypass:') + 'each-htlc-verified', 'every (HTLC, signature) pair is verified before the loop moves on' if p is None else 'an iteration can skip verify_ecdsa (lines %s)' % fu.path_lines(p), 1, where=F.where(fn, fu.line_of(hb))))
+		d2 = call_decisions(fu, [hb], 'result')
+		out += P4_fail_blocks(F, '05.k', fu, oks, d2, True, 'HTLC signature valid', key='htlc-sig-fail')
+	out += guarded_by_call(F, '05.k', fn, oks, ['ChannelSigner::validate_holder_commitment'], 'result', True)
+	# a counterparty fee update in this commitment must be affordable (exempt: no remote fee update pending)
+	vf = sites_call(fu, [CC + 'validate_update_fee'])
+	if not vf:
+		out.append(Result('05.k', False, 'guard:validate_update_fee', 'validate_commitment_signed no longer validates a pending remote fee update', 0, where=F.where(fn)))
+	else:
+		out += P4_fail_blocks(F, '05.k', fu, oks, call_decisions(fu, vf, 'result'), True, 'remote update_fee affordable', key='remote-fee-fail')
+	return out
+
 RULES = [
 	('05.a', 'release_commitment_secret is reachable only from get_last_revoke_and_ack, with index next_transaction_number + 2', r05a),
 	('05.b', 'HolderCommitmentPoint::advance only behind a validated commitment_signed', r05b),
@@ -270,5 +324,6 @@ RULES = [
 	('05.e', 'a new counterparty commitment is built only when no revocation is outstanding; the build sets AwaitingRemoteRevoke', r05e),
 	('05.f', 'holder commitment / HTLC signing is reachable only from on-chain claim packages', r05f),
 	('05.g', 'monitor: lockdown after force-close, sequential update ids, no holder-commitment update after lockdown', r05g),
+	('05.k', 'validate_commitment_signed: commitment signature, exactly one verified HTLC signature per non-dust HTLC, signer validation', r05k),
 	('05.i', 'channel_reestablish releases the last revoke_and_ack only when no monitor update is in progress', r05i),
 ]
